@@ -28,13 +28,26 @@ def structure_defn():
         xdoc.add_param(d, nm, uint(w))
     xdoc.add_param(d, "SEL", uint(8))
     xdoc.add_param(d, "ID", uint(16))
-    xdoc.add_param(d, "XA", uint(8))
-    xdoc.add_param(d, "YB", uint(8))
+    for nm in ("XA", "ZA", "YB", "WB"):
+        xdoc.add_param(d, nm, uint(8))
     xdoc.add_container(d, "ROOT", [("p", nm) for nm, _ in HDR] + [("p", "SEL"), ("p", "ID")], abstract=True)
     for a in (1, 2):
-        xdoc.add_container(d, f"A{a}a", [("p", "XA")], base="ROOT", crit_list=[cmp("APID", "==", a), cmp("SEL", "==", 0)])
-        xdoc.add_container(d, f"A{a}b", [("p", "YB")], base="ROOT", crit_list=[cmp("APID", "==", a), cmp("SEL", "==", 1)])
+        # field set "a" comes in two layouts that list the same parameters in a different order (SEL 0 / 2): one field SET
+        xdoc.add_container(d, f"A{a}a", [("p", "XA"), ("p", "ZA")], base="ROOT", crit_list=[cmp("APID", "==", a), cmp("SEL", "==", 0)])
+        xdoc.add_container(d, f"A{a}a2", [("p", "ZA"), ("p", "XA")], base="ROOT", crit_list=[cmp("APID", "==", a), cmp("SEL", "==", 2)])
+        xdoc.add_container(d, f"A{a}b", [("p", "YB"), ("p", "WB")], base="ROOT", crit_list=[cmp("APID", "==", a), cmp("SEL", "==", 1)])
     return d
+
+
+def structure_packet(fs, nid, apid):
+    """(packet bytes, {variable: value}) for packet number nid with field set fs"""
+    v1, v2 = 7 * nid % 256, (11 * nid + 3) % 256
+    if fs == "a":
+        sel = 0 if nid % 2 else 2
+        vals = {"XA": v1, "ZA": v2} if sel == 0 else {"ZA": v1, "XA": v2}
+    else:
+        sel, vals = 1, {"YB": v1, "WB": v2}
+    return defs.mk_packet(bytes([sel, nid >> 8, nid & 255, v1, v2]), apid=apid, seq=nid), dict(vals, SEL=sel, ID=nid)
 
 
 def write_files(tmp, files_pk, tag):
@@ -155,13 +168,15 @@ def run(ctx):
     for ci, c in enumerate(cases):
         files_pk = []
         ids = {}
+        cellvals = {}
         nid = 0
         for fi, f in enumerate(c["files"], 1):
             pks = []
             for pi, p in enumerate(f, 1):
                 nid += 1
                 ids[(fi, pi)] = nid
-                pks.append(defs.mk_packet(bytes([0 if p["fs"] == "a" else 1, nid >> 8, nid & 255, 7 * nid % 256]), apid=p["apid"], seq=nid))
+                pkb, cellvals[nid] = structure_packet(p["fs"], nid, p["apid"])
+                pks.append(pkb)
             files_pk.append(pks)
         paths = write_files(tmp, files_pk, f"s{ci}")
         ctx.count(("structure", json.dumps(c["files"])))
@@ -203,9 +218,19 @@ def run(ctx):
                     break
                 fs = c["files"][rr[0][0] - 1][rr[0][1] - 1]["fs"]
                 vars_ = set(ds[apid].data_vars)
-                wantvars = {nm for nm, _ in HDR} | {"SEL", "ID", "XA" if fs == "a" else "YB"}
+                wantvars = {nm for nm, _ in HDR} | {"SEL", "ID"} | ({"XA", "ZA"} if fs == "a" else {"YB", "WB"})
                 if vars_ != wantvars:
                     prob = f"APID {apid}: variables {sorted(vars_)} != {sorted(wantvars)}"
+                    break
+                # every cell is that packet's value of that parameter, whatever order its layout lists the parameters in
+                for row, pid_ in enumerate(want):
+                    for nm, val in cellvals[pid_].items():
+                        if int(ds[apid][nm].values[row]) != val:
+                            prob = f"APID {apid} row {row} (packet {pid_}): {nm} = {int(ds[apid][nm].values[row])}, the packet has {val}"
+                            break
+                    if prob:
+                        break
+                if prob:
                     break
         for pth in paths:
             os.unlink(pth)
